@@ -71,7 +71,7 @@ class Result:
 
     def note_input(self, canon, nontrivial):
         if nontrivial:
-            self.distinct.add(hashlib.sha1(sx.dump(canon).encode()).hexdigest()[:16])
+            self.distinct.add(hashlib.sha1(repr(canon).encode()).hexdigest()[:16])
 
     def sample(self, s, cap=6):
         if len(self.samples) < cap:
